@@ -276,7 +276,13 @@ pub fn values(full: bool) -> Vec<(v5::codec::Encoded, usize)> {
     let mut v: Vec<(c::Encoded, usize)> = Vec::new();
     let rs_lens_q: &[Option<usize>] = &[None, Some(0), Some(1), Some(2), Some(3), Some(10), Some(127), Some(128)];
     let rs_lens_t: &[Option<usize>] = &[None, Some(0), Some(1), Some(2), Some(3), Some(5), Some(10), Some(20), Some(64), Some(127), Some(128), Some(300)];
-    let rs_lens = if full { rs_lens_t } else { rs_lens_q };
+    // reason strings that put the property section exactly on / next to the variable-byte-integer boundaries
+    // 127|128 and 16383|16384 (section = 3 + length): the Property Length prefix changes width there
+    // (seeded change C09_r7: one too small at exactly 16383)
+    let boundary: &[usize] = &[123, 124, 125, 16379, 16380, 16381];
+    let mut rs_all: Vec<Option<usize>> = (if full { rs_lens_t } else { rs_lens_q }).to_vec();
+    rs_all.extend(boundary.iter().map(|b| Some(*b)));
+    let rs_lens = &rs_all;
     let up_cfgs: Vec<(usize, usize)> = {
         let mut u = vec![(0, 0)];
         for n in 1..=4 {
@@ -293,6 +299,9 @@ pub fn values(full: bool) -> Vec<(v5::codec::Encoded, usize)> {
     for rl in rs_lens {
         for (n, sz) in &up_cfgs {
             if !full && *n == 3 {
+                continue;
+            }
+            if rl.is_some_and(|l| boundary.contains(&l)) && !matches!((*n, *sz), (0, 0) | (1, 1)) {
                 continue;
             }
             let rs = rl.and_then(rs_len);
